@@ -120,6 +120,8 @@ func scopesValid(thorough bool) []Scope {
 		{Name: "L-half-3", GS: synthGS(0, 2, [2]int64{6, 6}), Spec: lat.Spec{Points: lat.Window(3, 3, 2), MaxK: k(4, 5), Valid: true}, IDSets: one, Cfgs: keepCfgs},
 		{Name: "L-quarter-2", GS: synthGS(0, 4, [2]int64{7, 7}), Spec: lat.Spec{Points: lat.Window(2, 2, 4), MaxK: k(3, 4), Valid: true}, IDSets: one, Cfgs: keepCfgs},
 		{Name: "L-holes-2", GS: synthGS(0, 2, [2]int64{7, 7}), Spec: lat.Spec{Points: lat.Window(2, 2, 2), MaxK: 4, Valid: true, MaxHoles: k(1, 2), HoleMaxK: k(3, 4)}, IDSets: one, Cfgs: keepCfgs},
+		// vertices on the pixel centres of a 4x4 window only: nothing collapses, shells and holes come back exactly as routed
+		{Name: "L-centres-4-holes", GS: synthGS(0, 2, [2]int64{6, 6}), Spec: lat.Spec{Points: lat.Centres(4, 4), MaxK: 4, Valid: true, MaxHoles: 1, HoleMaxK: 3}, IDSets: one, Cfgs: keepCfgs},
 		{Name: "L-multi", GS: synthGS(2, 2, [2]int64{28, 28}), Spec: lat.Spec{Points: scale(lat.Window(2, 2, 2), 4), MaxK: k(4, 5), Valid: true}, IDSets: subsetsOf([]int{0, 1, 2}), Cfgs: keepCfgs},
 	}
 	// blocks of the real grids the property names (fine levels: pixel sizes small enough for int64 reference arithmetic)
